@@ -71,6 +71,8 @@ def standard_run(res, prop, cases, keep, what, rule, exhaustive_note, assume):
     if pr.get("broken") and not pr["obligations"]:
         res.oblige("coq build", False, pr["broken"])
     exe = C.build_model()
+    if callable(cases):
+        cases = cases(vh)
     rows = run_cases(vh, exe, cases)
     rows = [r for r in rows if keep(r)]
     judge(res, rows, prop, what)
